@@ -161,6 +161,21 @@ Theorem C10_accepted_text_builds_a_grammar :
 Proof. intros nm ak penv buf. exact (accepted_text_builds nm ak buf penv). Qed.
 Print Assumptions C10_accepted_text_builds_a_grammar.
 
+(** ... and for the parser that is shipped, on EVERY text: whatever runes it is given (code points other than the end
+    symbol), the machine of the -inline -switch tree terminates, and either Parse() reports an error or Execute()'s
+    calls over the recorded tokens build a well-formed grammar.  Never a crash, never a silently empty parser. *)
+Theorem C10_every_text_shipped :
+  forall (nm ak : list rune -> nat) penv buf memo inline st0,
+  good_buf buf -> valid_buf buf -> slot_ok pegpeg_is inline 0 ->
+  exists n b st', machine pegpeg_is pegpeg_is_ptx buf penv memo inline n 0 st0 = Some (Ret b st') /\
+    (b = true ->
+     exists s', frun nm ak (calls_of_tokens pegpeg_is pegpeg_is_ptx buf (live st')) finit = Some s' /\
+       stk s' = [] /\ pend s' = None /\ pegn s' = None /\
+       (exists pk, In (NPackage pk) (back s')) /\ (exists name st, In (NPeg name st) (back s')) /\
+       (exists name e, In (NRule name e) (back s'))).
+Proof. exact every_text_shipped. Qed.
+Print Assumptions C10_every_text_shipped.
+
 (** the analysis is not vacuous: the table gives an effect to every rule but Grammar and Definition (whose
     AddRule / AddExpression / AddPeg / AddState protocol the theorem handles itself), and an expression pushes one node *)
 Example C10_effects_nonvacuous :
